@@ -18,7 +18,7 @@ CHECKS = {
              "with an independent Fraction model of TCGA92 s105(1)/s106A/s104. Quick: ~37k shape-directed ledgers incl. "
              "the complete window-edge suite (every sale date 2019-04-06..2025-04-05 x offsets 0,1,29,30,31) and the same suite over a seed-chosen block of four tax years in 1900..2100; thorough: every sale date 1900-04-06..2100-04-05. "
              "Held = held on the executions observed; coverage counters (legs per rule, competing claims, reservations, "
-             "splits in window, offsets) are in the evidence and a run that saw too few of them is inconclusive.",
+             "splits in window, offsets) are in the evidence and a run that saw too few of them is inconclusive. One ledger in four (chosen by its hash) enters the library as DSL text in a random lexical style (keyword/currency/ticker case, spacing, comments, line endings) instead of as structs, so the parser-to-engine hand-over is inside the monitored path.",
         note="Trusts the Python model's reading of the statute (validated against the repaired tree and by seeded "
              "mutations), rust_decimal residue below 1e-15 (1e-9 on figures passing round_dp(10)), and that the release "
              "harness build reflects /repo's working tree.",
@@ -31,7 +31,7 @@ CHECKS = {
              "acquisition date D (converted to D's units across splits) never exceed that day's BUYs; closing holding = "
              "acquisitions - disposals rescaled by splits. At the H2 hook it asserts at every day end that no lot has "
              "consumed+reserved+in_pool > original or a negative counter, and that the pool equals lots moved in minus "
-             "s104 legs so far. Independent of the identification model, so it stays meaningful where C01 would be in doubt.",
+             "s104 legs so far. Independent of the identification model, so it stays meaningful where C01 would be in doubt. One ledger in four (chosen by its hash) enters the library as DSL text in a random lexical style (keyword/currency/ticker case, spacing, comments, line endings) instead of as structs, so the parser-to-engine hand-over is inside the monitored path.",
         note="Strict workload classes only (no split on a trade date of the same security: that convention is not fixed "
              "by any property). Tolerance 1e-15 + 1e-18*scale for decimal residue. "
              "Later addition: a labelled class with SPLIT/UNSPLIT on trade dates judged only by the tool's own views agreeing with each other (matcher net position vs Section 104 pool vs reported holding; hook H2); F15 divergences there are known-finding signatures.",
@@ -42,7 +42,7 @@ CHECKS = {
         text="Per security of every accepted ledger: sum(leg allowable costs) + closing pool cost must equal "
              "sum(q*p+fees in GBP) + the cost offsets the pre-pass actually attached (H2), and those offsets must equal "
              "the net amounts of exactly the capital events dated while shares were held (never a fraction of an event). "
-             "Includes a foreign-currency class converted by an independent reading of the bundled HMRC XML.",
+             "Includes a foreign-currency class converted by an independent reading of the bundled HMRC XML. One ledger in four (chosen by its hash) enters the library as DSL text in a random lexical style (keyword/currency/ticker case, spacing, comments, line endings) instead of as structs, so the parser-to-engine hand-over is inside the monitored path. Capital-event lines quote quantities above, at and below the holding (the quoted quantity is informational) and are sometimes listed twice, identical lines being separate events.",
         note="An event dated when the model holding is exactly zero after a non-terminating split ratio is left open "
              "here (decimal residue decides; reported by C11). Strict classes only. "
              "A labelled split-on-trade-date class judges an event by the reading of 'held' that the report's own closing holding shows. Without hooks (tree does not compile with verif-hooks) conservation is checked against the model's event amounts instead.",
@@ -54,7 +54,7 @@ CHECKS = {
              "tick above the holding, companion sale matched to a later repurchase, oversell appearing after a "
              "split/unsplit) are run through calculate(); the verdict must equal the model predicate 'acquired to date "
              ">= sold to date on every date', the error must name the security and its first uncovered date, and the "
-             "real cgt-tool (plain/json/pdf, with and without --output) must exit non-zero with empty stdout and no file.",
+             "real cgt-tool (plain/json/pdf, with and without --output) must exit non-zero with empty stdout and no file. One ledger in four (chosen by its hash) enters the library as DSL text in a random lexical style (keyword/currency/ticker case, spacing, comments, line endings) instead of as structs, so the parser-to-engine hand-over is inside the monitored path.",
         note="Known open finding F3b (decimal residue after a non-terminating split ratio refuses a covered sale of the "
              "whole holding) is matched on its exact signature only. MCP leg of the no-partial-output clause is "
              "observed by C20's history checker.",
@@ -67,7 +67,7 @@ CHECKS = {
              "net - costs, per-disposal netting into total gain/loss, disposal count, dividend totals by tax year, "
              "exemption = configured amount, unconfigured year = error, taxable = max(0, net - exemption)) is recomputed "
              "in exact rationals from the input lines and compared with the report for ~12k ledgers x generated "
-             "exemption maps x optional year filter, plus real cgt-tool runs with ./config.toml and ~/.config overrides.",
+             "exemption maps x optional year filter, plus real cgt-tool runs with ./config.toml and ~/.config overrides. One ledger in four (chosen by its hash) enters the library as DSL text in a random lexical style (keyword/currency/ticker case, spacing, comments, line endings) instead of as structs, so the parser-to-engine hand-over is inside the monitored path.",
         note="Two override files never disagree on a year (their precedence is not part of the property). FX class uses "
              "the independent rate-table model.",
         ref="DESIGN.md §3 C04"),
@@ -110,7 +110,7 @@ CHECKS = {
              "with their twin in post-split units (exact class: ratios with terminating reciprocals, 1e-9; rounded "
              "class: any ratio, twin rounded at 18 dp, 1e-7 relative): gains, proceeds, costs, closing cost equal, "
              "quantities scaled; a SPLIT r/UNSPLIT r pair at an idle date changes nothing. "
-             "A set-valued class covers splits on trade dates: the report must equal the post-split-units twin under at least one of the two readings (that date's other lines pre-split / post-split).",
+             "A set-valued class covers splits on trade dates: the report must equal the post-split-units twin under at least one of the two readings (that date's other lines pre-split / post-split). One ledger in four (chosen by its hash) enters the library as DSL text in a random lexical style (keyword/currency/ticker case, spacing, comments, line endings) instead of as structs, so the parser-to-engine hand-over is inside the monitored path.",
         note="Accept/reject differences caused by ~1e-27-share residue after a non-terminating ratio are the known "
              "finding F3b; dust artefacts of the rounded twin itself are skipped and counted.",
         ref="DESIGN.md §3 C10"),
@@ -121,7 +121,7 @@ CHECKS = {
              "identified with a later acquisition; equal ACCUMULATION+CAPRETURN cancel; a DIVIDEND changes dividend "
              "totals only; no leg/holding cost is negative; a return above the expenditure left (read from the tool's "
              "own prefix report) must be refused citing S122, one below it accepted. "
-             "A labelled class puts SPLIT/UNSPLIT on trade dates and reads the holding from the matching pass's own day-end positions (H2); no leg drawn from acquisitions completely sold before the event may move.",
+             "A labelled class puts SPLIT/UNSPLIT on trade dates and reads the holding from the matching pass's own day-end positions (H2); no leg drawn from acquisitions completely sold before the event may move. One ledger in four (chosen by its hash) enters the library as DSL text in a random lexical style (keyword/currency/ticker case, spacing, comments, line endings) instead of as structs, so the parser-to-engine hand-over is inside the monitored path. The added event quotes a quantity far above, around or below any holding and may be listed two or three times (identical lines are separate events: the cost must move by the sum).",
         note="The F6 family (adjustments attached to whole lots by share count; s122 test sized by a pre-pass that "
              "ignores 30-day identification and pool averaging) is recorded as open findings under narrow signatures; "
              "the never-sold class keeps the s122 test itself observable.",
@@ -132,7 +132,7 @@ CHECKS = {
              "400 days after the prefix's last date (some failing by themselves); every prefix disposal must reappear "
              "bit-identical, every tax year closed before the suffix must keep its whole summary, and a rejection must "
              "name a date in the suffix period. "
-             "Year-restricted views under the embedded exemption table: a tax year closed before the continuation starts must still be produced, unchanged, for the grown ledger, also when the continuation reaches years the table does not cover.",
+             "Year-restricted views under the embedded exemption table: a tax year closed before the continuation starts must still be produced, unchanged, for the grown ledger, also when the continuation reaches years the table does not cover. One ledger in four (chosen by its hash) enters the library as DSL text in a random lexical style (keyword/currency/ticker case, spacing, comments, line endings) instead of as structs, so the parser-to-engine hand-over is inside the monitored path.",
         note="Continuations contain no CAPRETURN/ACCUMULATION (excluded by the property).",
         ref="DESIGN.md §3 C12"),
     "C08": dict(
@@ -170,7 +170,7 @@ CHECKS = {
         text="Random lists of all seven kinds with decimal literals of every scale 0-28 (incl. 2^96-1, trailing zeros, "
              "1e-28), every currency code the tool knows, keyword-/number-/currency-looking tickers and years 0001-9999 "
              "must survive DSL and JSON round trips field by field (mantissa and scale), writing must be idempotent, and "
-             "report(structs) == report(DSL rendering) == report(JSON rendering) bit-exactly; CLI report/parse on the renderings.",
+             "report(structs) == report(DSL rendering) == report(JSON rendering) bit-exactly; CLI report/parse on the renderings. Workloads contain two or three textually identical neighbouring lines (an order filled in equal lots): every one of them must survive each path.",
         note="Only a zero FEES/TAX may lose its currency label (and scale). MCP parse/convert/calculate legs are in C20.",
         ref="DESIGN.md §3 C14"),
     "C18": dict(
@@ -193,7 +193,7 @@ CHECKS = {
              "or >7 days before the deposit, no file): the BUY must be dated/priced from the exact-date entry or the nearest "
              "earlier one within 7 days, vest-specific value over fallback, and otherwise conversion must fail with "
              "MissingFairMarketValue naming symbol and date. "
-             "Exports with several deposit rows (different symbols on one date, one symbol on several dates; each row identified by its own quantity) are judged row by row.",
+             "Exports with several deposit rows (different symbols on one date, one symbol on several dates; each row identified by its own quantity) are judged row by row. Some deposit rows carry a Price/Amount of their own, which must never stand in for an awards entry.",
         note="Two entries offering one date: either value accepted (cross-entry precedence is not specified).",
         ref="DESIGN.md §3 C19"),
     "C15": dict(
